@@ -10,6 +10,7 @@ import props_file
 import props_pool
 import props_thread
 import props_concrouter
+import props_race
 SPECS = {
     "C01": props_resource.C01,
     "C02": props_resource.C02,
@@ -30,6 +31,7 @@ SPECS = {
     "C08": props_pool.C08,
     "C20": props_thread.C20,
     "C11": props_concrouter.C11,
+    "C15": props_race.C15,
 }
 # specs that can be run (./check) but are not claimed in MANIFEST.json yet
 IN_PROGRESS = set()
